@@ -82,12 +82,12 @@ def run(tier, seed, pid="C18"):
     outcomes = collections.defaultdict(list)
     for x in r.records:
         outcomes[tuple(x["G"])].append(x)
-    u = rng.uniform(0.5, 8.0)
-    todo = [(list(G), u) for G in outcomes]
+    # per-metric scale, log-uniform: small scales bring the squared lengths of different lattice vectors within 1 A^2
+    todo = [(list(G), 10 ** rng.uniform(-0.9, 0.9)) for G in sorted(outcomes)]
     res = common.pmap(call, todo, chunk=4)
     skipped = 0
     n_known = 0
-    for (G, _u), (cell, got) in zip(todo, res):
+    for (G, u), (cell, got) in zip(todo, res):
         outs = outcomes[tuple(G)]
         if any(o["pc"] != "done" or abs(o["detV"]) != 1 for o in outs):
             skipped += 1           # search range too small for this metric: outside the quantifier
